@@ -688,10 +688,23 @@ def _oracle(f, args):
             out.append(e)
         return A(out), same
     if f == 'range':
-        if not 1 <= len(args) <= 3 or not all(a[0] == 'i' for a in args): raise NoOpinion()
-        xs = [a[1] for a in args]
-        if len(xs) == 3 and xs[2] == 0: return A([]), same
-        return A([I(x) for x in range(*xs)]), same
+        from fractions import Fraction
+        if not 1 <= len(args) <= 3: raise NoOpinion()
+        xs = []
+        for a in args:
+            if a[0] == 'i': xs.append(Fraction(a[1]))
+            elif a[0] == 'd' and not (math.isnan(a[1]) or math.isinf(a[1])) and a[1] * 8 == math.floor(a[1] * 8) and abs(a[1]) < 1e6:
+                xs.append(Fraction(a[1]))      # dyadic: double arithmetic on these is exact
+            else: raise NoOpinion()
+        start, stop, step = (Fraction(0), xs[0], Fraction(1)) if len(xs) == 1 else (xs[0], xs[1], Fraction(1)) if len(xs) == 2 else xs
+        out = []
+        if step != 0:
+            x = start
+            while (x < stop if step > 0 else x > stop):
+                out.append(I(int(x)) if x.denominator == 1 else ('d', float(x)))
+                x += step
+                if len(out) > 100000: raise NoOpinion()
+        return A(out), same
     if f == 'distinct':
         if len(args) != 1 or args[0][0] not in ('(', '['): raise NoOpinion()
         d = collections.OrderedDict()
